@@ -31,6 +31,7 @@ def sendEnv (rnd : Nat → Nat) (cancelled : Bool) : Gen.SendEnv SendState where
     | 0 => .ok (false, { st with waits := st.waits ++ [d] })
     | k + 1 => .ok (true, { st with waits := st.waits ++ [d], rounds := k })
   SockWrite := fun b st => .ok (none, { st with writes := st.writes ++ [b] })
+  SockClose := fun st => .ok (none, st)
 
 /-- The template closure handed to the sender: always the same frame and (source, destination) hint. -/
 def constSender (pkt src dst : Bytes) : R (Bytes × Bytes × Bytes) := .ok (pkt, src, dst)
